@@ -375,6 +375,24 @@ def _module_state(chk: Check) -> List[Tuple[str, str, str]]:
                 if isinstance(root, tuple) and root[0] == 'param' and root[1] in mutable_defaults and e.depth() == 0:
                     out.append(('%s :: `%s`' % (q, e.text()), '%s:%d' % (fi.module.rel, e.line),
                                 'mutates the mutable default of parameter `%s`: state that survives the call' % root[1]))
+    # a one-shot iterator bound at module level (a generator expression, iter(...), map / filter / zip(...)) is state too: the
+    # first function that loops over it empties it for every later call, on every parser
+    ONE_SHOT = {'iter', 'map', 'filter', 'zip', 'reversed', 'enumerate'}
+    for m in F.modules.values():
+        if '.ply' in m.name or '.gen' in m.name:
+            continue
+        for var, vals in sorted(m.assigns.items()):
+            for v in vals:
+                shot = isinstance(v, ast.GeneratorExp) or (isinstance(v, ast.Call) and isinstance(v.func, ast.Name) and v.func.id in ONE_SHOT
+                                                           and F.resolve_expr(m, v.func) == ('builtin', v.func.id))
+                if not shot:
+                    continue
+                users = [q for q, fi in sorted(F.functions.items()) if fi.module is m and any(
+                    isinstance(n, ast.Name) and n.id == var and isinstance(n.ctx, ast.Load) for n in ast.walk(fi.node))]
+                if users:
+                    out.append(('%s.%s :: one-shot iterator read by %s' % (m.name, var, users[0]), '%s:%d' % (m.rel, v.lineno),
+                                '`%s = %s` is an iterator, not a sequence: the first call that loops over it exhausts it, every later call '
+                                '(any parser, any names) sees it empty' % (var, norm(v)[:80])))
     seen = set()
     res = []
     for x in out:
